@@ -160,6 +160,11 @@ func (h *HelloElemVersionBitmap) UnmarshalBinary(data []byte) error {
 		return err
 	}
 	read += int(h.HelloElemHeader.Len())
+	// the bitmaps end where the element's length says; what follows in the
+	// buffer is padding or the next element
+	if l := int(h.HelloElemHeader.Length); l >= read && l < length {
+		length = l
+	}
 
 	h.Bitmaps = make([]uint32, 0)
 	for read+4 <= length {
